@@ -491,13 +491,16 @@ def run(shard, ctx):
                 ctx.sample({'signature': sig, **meta, 'input': describe(da)})
 
 
-TECHNIQUE = ('runtime monitor (sys.monitoring) on convert(): before/after fingerprints of the binned input and its '
-             'parts; differential against the dense conversion of the per-event twin, bit for bit')
-LEVEL_TEXT = ('exploration: for every observed convert() call on binned data the monitor rebuilds the dense twin '
-              '(flat event buffer, pixel geometry gathered per event) and requires the event coordinate of the '
-              'result to equal the dense result bit for bit, the bin-edge coordinate to equal the dense conversion '
-              'of the edges, and weights, variances, event order, bin membership, masks, unrelated coordinates and '
-              'the input object to be unchanged (fingerprints). Sampled layouts, not a proof.')
+TECHNIQUE = ('runtime monitors (sys.monitoring) on convert() and on the gravity kernels for binned data: before/after '
+             'fingerprints of the binned input and its parts; differential against the dense conversion of the flat '
+             'per-event twin and of each pixel on its own, bit for bit; independent NaN rule for inelastic targets')
+LEVEL_TEXT = ('exploration: for every observed convert() call on binned data the monitor rebuilds two dense twins '
+              '(flat event buffer with pixel geometry gathered per event; each pixel alone with scalar geometry) and '
+              'requires the event coordinate of the result to equal the dense result bit for bit, the bin-edge '
+              'coordinate to equal the dense conversion of the edges, NaN exactly for tof <= an independently computed '
+              't0 (inelastic targets), and weights, variances, event order, bin membership, masks, unrelated coordinates '
+              'and the input object to be unchanged (fingerprints). The gravity kernels with binned wavelength are '
+              'judged the same way (4 eps when beams vary per pixel). Sampled layouts, not a proof.')
 LEVEL_NOTE = ('trusted: the dense kernels (decided by C01/C03/C05), scipp binned containers, elementwise IEEE '
               'arithmetic being identical in binned and dense evaluation')
 DESIGN_REF = 'DESIGN.md section 4, C06'
